@@ -19,7 +19,7 @@ from typing import Dict, List, Optional, Set, Tuple
 
 import sympy as sp
 
-from ..consteval import Folder, Raised, Rec, Undecidable
+from ..consteval import Folder, Opaque, Raised, Rec, Undecidable
 from ..index import AnalysisError, FunctionInfo, Index, full, norm, own_nodes
 from ..report import Report
 from ..rules import siblings as sib
@@ -312,6 +312,30 @@ def check_route_totality(idx: Index, rep: Report):
                what="the direct statevector route is taken exactly for noiseless, exact (no shots) evaluation on a statevector backend",
                reason=f"route predicate differs on {len(sv_ok)} configuration(s), e.g. {sv_ok[0] if sv_ok else ''}")
     check_complex_split(idx, rep, rule)
+    check_sympy_expectation(idx, rep)
+
+
+class _NpComplex:
+    """stand-in for a numpy complex scalar: `type()` of it is the numpy type, it is not an instance of Python's complex unless numpy makes it one
+    (complex128 subclasses complex, complex64 does not), and it has .real / .imag"""
+    _sa_model = True
+
+    def __init__(self, v, tname):
+        self.v = complex(v)
+        self.real, self.imag = self.v.real, self.v.imag
+        self._sa_type_text = tname
+
+    def __complex__(self):
+        return self.v
+
+    def __abs__(self):
+        return abs(self.v)
+
+
+class _NpComplex128(complex):
+    """numpy's complex128 is a subclass of Python's complex"""
+    _sa_model = True
+    _sa_type_text = "np.complex128"
 
 
 class _BackendProbe:
@@ -327,11 +351,11 @@ class _BackendProbe:
 
     def _lin(self, op, circ, **kw):
         self.calls.append(("E", circ, kw))
-        return sum((sp.nsimplify(c) * sp.Symbol("E" + repr(t), real=True) for t, c in op.terms.items()), sp.Integer(0))
+        return sum((sp.nsimplify(complex(c) if isinstance(c, _NpComplex) else c) * sp.Symbol("E" + repr(t), real=True) for t, c in op.terms.items()), sp.Integer(0))
 
     def _quad(self, op, circ, **kw):
         self.calls.append(("V", circ, kw))
-        return sum((sp.nsimplify(c) ** 2 * sp.Symbol("V" + repr(t), positive=True) for t, c in op.terms.items()), sp.Integer(0))
+        return sum((sp.nsimplify(complex(c) if isinstance(c, _NpComplex) else c) ** 2 * sp.Symbol("V" + repr(t), positive=True) for t, c in op.terms.items()), sp.Integer(0))
     get_expectation_value = _get_expectation_value_from_frequencies = _get_expectation_value_from_statevector = _lin
     get_variance = _get_variance_from_frequencies = _quad
 
@@ -342,9 +366,10 @@ def check_complex_split(idx: Index, rep: Report, rule: str):
     from .C14 import _QOp
     from ..rules.circuitsem import make_folder
     t1, t2, t3 = ((0, "X"),), ((0, "Z"), (1, "Z")), ((2, "Y"),)
-    samples = [{t1: 1 + 2j, t2: 3.0, t3: -1j}, {t1: 2j}, {t1: 0.5, t2: -1.5}, {t1: (1 + 0j), t2: 0.25 + 0.75j}]
+    samples = [{t1: 1 + 2j, t2: 3.0, t3: -1j}, {t1: 2j}, {t1: 0.5, t2: -1.5}, {t1: (1 + 0j), t2: 0.25 + 0.75j},
+               {t1: _NpComplex(1 + 2j, "np.complex64"), t2: _NpComplex(-0.5j, "np.complex64")}, {t1: _NpComplex128(0.5 - 1j), t2: 2.0}]
     circ = Rec("Circuit", {"width": 4, "size": 3, "is_mixed_state": False})
-    for fn, sym, form in (("get_expectation_value", "E", lambda c: sp.nsimplify(c)), ("get_variance", "V", lambda c: sp.nsimplify(abs(c) ** 2))):
+    for fn, sym, form in (("get_expectation_value", "E", lambda c: sp.nsimplify(complex(c) if isinstance(c, _NpComplex) else c)), ("get_variance", "V", lambda c: sp.nsimplify(abs(c) ** 2))):
         g = idx.function(f"{BACKEND}::Backend.{fn}")
         for terms in samples:
             op = _QOp()
@@ -360,7 +385,8 @@ def check_complex_split(idx: Index, rep: Report, rule: str):
             val_ok = sp.simplify(sp.nsimplify(got) - want) == 0
             fwd_ok = bool(probe.calls) and all(c[1] is circ and c[2].get("initial_statevector") == "SV0" and c[2].get("desired_meas_result") == "01" for c in probe.calls)
             unchanged = op.terms == dict(terms)
-            rep.decide(val_ok and fwd_ok and unchanged, rule, g, g.node, text=f"{fn} with coefficients {list(terms.values())}",
+            shown = [(f"{c._sa_type_text}({complex(c)})" if getattr(c, "_sa_type_text", None) else c) for c in terms.values()]
+            rep.decide(val_ok and fwd_ok and unchanged, rule, g, g.node, text=f"{fn} with coefficients {shown}",
                        what="an operator with complex coefficients is evaluated by linearity (real part + i * imaginary part; variances add), every inner evaluation "
                             "receiving the caller's circuit, initial statevector and requested outcome, and the caller's operator is left as it was",
                        reason=(f"result {got} instead of {want}; " if not val_ok else "") + ("inner evaluation lost an argument; " if not fwd_ok else "") + ("the operator was modified" if not unchanged else ""))
@@ -466,3 +492,36 @@ def check_stateless_evaluation(idx: Index, rep: Report, tier: str):
                               reason=f"{ev.describe()} keeps a value derived from the operator argument on the backend object: a later call with the same "
                                      f"(in-place modified) operator object can see the stale value")
     rep.floor("stateless evaluation entry points", n, 10)
+
+
+# ---------------------------------------------------------------------------------------------------
+def check_sympy_expectation(idx: Index, rep: Report):
+    """SympySimulator.expectation_value_from_prepared_state folded on a symbolic two-component complex state and a symbolic Hermitian matrix
+    (the operator translation is replaced by that matrix): the result must be psi^dagger O psi - in particular the bra is the *conjugate*
+    transpose, which only matters for states with complex amplitudes."""
+    rule = "K9.sympy-expectation"
+    from ..rules.circuitsem import make_folder
+    TSYM = "tangelo/linq/target/target_sympy.py"
+    cls = idx.cls(f"{TSYM}::SympySimulator")
+    f = cls.methods["expectation_value_from_prepared_state"]
+    a0, a1 = sp.Symbol("a0"), sp.Symbol("a1")                     # complex amplitudes
+    h00, h11 = sp.Symbol("h00", real=True), sp.Symbol("h11", real=True)
+    h01 = sp.Symbol("h01")
+    psi = sp.Matrix([[a0], [a1]])
+    O = sp.Matrix([[h00, h01], [sp.conjugate(h01), h11]])
+
+    class _Self:
+        _sa_model = True
+        _current_state = psi
+    for label, prepared in (("state passed in", psi), ("state kept by the simulator", None)):
+        fo = make_folder(idx, TSYM, ctors={"translate_operator": lambda a, k: O, "Dagger": lambda a, k: a[0].H, "simplify": lambda a, k: a[0]})
+        fo.env["cos"] = Opaque("cos")
+        try:
+            got = fo.run_function(f.node, {"self": _Self(), "qubit_operator": Opaque("qubit_operator"), "n_qubits": 1, "prepared_state": prepared})
+        except (Undecidable, Raised) as e:
+            raise AnalysisError(f"SympySimulator.expectation_value_from_prepared_state not foldable: {e}")
+        want = (psi.H * O * psi)[0, 0]
+        ok = sp.simplify(sp.expand(sp.sympify(got) - want)) == 0
+        rep.decide(ok, rule, f, f.node, text=f"sympy backend, {label}: <psi|O|psi> with the conjugate transpose of psi",
+                   what="the expectation value on a prepared state is psi^dagger O psi (conjugated bra), also for complex amplitudes",
+                   reason=f"folds to {sp.simplify(got)}")
